@@ -38,13 +38,19 @@ def spec_lines(chk, quick, frac):
                     if steps >= 4:
                         a = rng.randint(0, steps // 2)
                         b = a + rng.randint(max(1, steps // 6), steps)
-                        lines.append(genmon.dbd_line(table, iso, level, mode, (a / 64.0, b / 64.0), work_bound=wb))
+                        # the spectrum tables have 1-keV bins: the work bound is claimed only for windows whose part inside the
+                        # kinematic range spans at least 1/64 MeV (a window of two or three bins gives a ragged envelope; the thorough
+                        # tier saw 25783 deviates for Sn124 level 8 mode 8 in a 2.6 keV window on the unchanged tree)
+                        wide = min(b / 64.0, e0) - a / 64.0 >= 1 / 64.0
+                        lines.append(genmon.dbd_line(table, iso, level, mode, (a / 64.0, b / 64.0), work_bound=wb if wide else 0))
                 if mode in genmon.WINDOW_MODES and mode != 10 and e0 > 0.1 and rng.uniform() < (0.25 if quick else 1.0):
                     # ladder of windows climbing towards the end-point: the samplers adapt their envelopes to the window, so the
                     # work per shot must not grow while the window gets rarer (full/window ratio up to ~1e9 here)
                     for k in ((2, 4, 6) if quick else (1, 2, 3, 4, 5, 6, 7)):
-                        lines.append(genmon.dbd_line(table, iso, level, mode, (e0 * (1 - 2.0 ** -k), 4.3), work_bound=wb))
-                    lines.append(genmon.dbd_line(table, iso, level, mode, (0.0, e0 * 2.0 ** -rng.randint(1, 5)), work_bound=wb))
+                        wide = e0 * 2.0 ** -k >= 1 / 64.0
+                        lines.append(genmon.dbd_line(table, iso, level, mode, (e0 * (1 - 2.0 ** -k), 4.3), work_bound=wb if wide else 0))
+                    kk = rng.randint(1, 5)
+                    lines.append(genmon.dbd_line(table, iso, level, mode, (0.0, e0 * 2.0 ** -kk), work_bound=wb if e0 * 2.0 ** -kk >= 1 / 64.0 else 0))
     return lines, skipped
 
 
@@ -121,7 +127,7 @@ def main():
                 "finite momenta, 0 <= Ekin <= bound (12 MeV background / Q double beta), finite non-negative non-decreasing times, event time 0, "
                 "generator label, is_valid(), draws <= 2e6 (hard cap) and draws <= 20000 (work bound: observed maxima on this tree stay below ~5000 "
                 "even for windows holding 1e-15 of the spectrum; not applied to windows on mode 10, whose reference algorithm rejects under the "
-                "maximum of the whole positron spectrum); window ladders climbing to the end-point for the window-capable modes; tapes: i.i.d. + each of the first K<=64 cells pinned to 1e-12, 1-1e-12, 1e-300, "
+                "maximum of the whole positron spectrum, nor to windows spanning less than 1/64 MeV of the kinematic range - the tables have 1-keV bins); window ladders climbing to the end-point for the window-capable modes; tapes: i.i.d. + each of the first K<=64 cells pinned to 1e-12, 1-1e-12, 1e-300, "
                 "pairs of neighbouring cells in opposite tails, a quantile/log-tail grid and branching thresholds, 40 leading cells all in one tail, "
                 "and a frontier search over pinned cells guided by new branch signatures (harness/steer.h: rare branches of rare branches); distinct = distinct (configuration, branch signature) pairs",
         "samples": samples,
